@@ -225,8 +225,9 @@ def replace_docstring(source: str, docstr: str, insert_indents=False):
             src_back = source[first_stmt.first_token.endpos:]
 
         else:   # No docstring
+            # The body follows on the same line: separate it with ";"
             src_front = source[:first_stmt.first_token.startpos]
-            src_back = source[first_stmt.first_token.startpos:]
+            src_back = "; " + source[first_stmt.first_token.startpos:]
 
         return src_front + docstr + src_back
 
